@@ -389,6 +389,16 @@ def gen_groups(rng):
         keep.append([t, rng.choice(PRIOS), 'block', rng.choice(pool), rng.random() < 0.6])
         if rng.random() < 0.5:
             keep.append([t + rng.choice([0.5, 1.5, 3]), rng.choice(PRIOS), 'block', keep[-1][3], False])
+    if rng.random() < 0.25:
+        # an existing group path gets a further upstream while the simulation runs
+        tops = spec['devs']
+        gps = [d for d in tops if d['k'] == 'GP']
+        if gps:
+            x = rng.choice(gps)
+            idx = tops.index(x)
+            ups = [u['n'] for u in tops[:idx] if u['k'] in ('S', 'H', 'P', 'B') and u['n'] not in x['up']]
+            if ups:
+                keep.append([rng.choice(TIMES), rng.choice(PRIOS), 'rewire_add', x['n'], rng.choice(ups)])
     spec['actions'] = keep
     spec['profile'] = 'groups'
     spec.pop('between', None)
